@@ -386,6 +386,17 @@ def make_input(struct, rng, cplx, red, n, fname):
     t = np.arange(n)
     if struct == "da3":
         return xr.DataArray(arr((n, 3, 2)), dims=("time", "lat", fname), coords={"time": t, "lat": [10.0, 20.0, 30.0], fname: [0, 1]}, name="t2m")
+    if struct == "da3aux":
+        # auxiliary (non-index) coordinates along the two feature dimensions that get stacked
+        da = xr.DataArray(arr((n, 3, 2)), dims=("time", "lat", fname), coords={"time": t, "lat": [10.0, 20.0, 30.0], fname: [0, 1]}, name="t2m")
+        return da.assign_coords(cell_area=(("lat", fname), np.arange(6.0).reshape(3, 2) + 1.0), zone=("lat", [7, 8, 9]))
+    if struct == "miaux":
+        # a user MultiIndex on the sample dimension with an auxiliary coordinate lying along it
+        assert n % 2 == 0
+        mi = pd.MultiIndex.from_product([np.arange(n // 2), [1, 2]], names=("year", "month"))
+        da = xr.DataArray(arr((n, 4)), dims=("time", fname), coords={fname: np.arange(4)}, name="t2m")
+        da = da.assign_coords(xr.Coordinates.from_pandas_multiindex(mi, "time"))
+        return da.assign_coords(season=("time", np.arange(n) % 4))
     if struct == "ds":
         a = xr.DataArray(arr((n, 3)), dims=("time", fname), coords={"time": t, fname: [0, 1, 2]})
         b = xr.DataArray(arr((n, 3)), dims=("time", fname), coords={"time": t, fname: [0, 1, 2]})
@@ -807,7 +818,7 @@ def run_case(ctx, case, paths, moments):
 ALL_CLASSES = ["EOF", "ComplexEOF", "HilbertEOF", "ExtendedEOF", "SparsePCA", "POP", "OPA", "CPCCA", "MCA", "CCA", "RDA",
                "ComplexCPCCA", "ComplexMCA", "HilbertMCA"]
 ROTATABLE = ["EOF", "ComplexEOF", "HilbertEOF", "CPCCA", "MCA", "ComplexMCA", "HilbertMCA"]
-STRUCTS = ["da2", "da3", "ds", "list", "mi", "nan", "name=dim", "list12"]
+STRUCTS = ["da2", "da3aux", "miaux", "da3", "ds", "list", "mi", "nan", "name=dim", "list12"]
 MOMENTS = ["fresh", "after-queries", "after-compute", "after-rotator-fit"]
 
 
@@ -853,7 +864,7 @@ def plan(ctx):
 
 def run_models(ctx):
     t0 = time.time()
-    budget = ctx.n(52, 700)
+    budget = ctx.n(150, 900)
     cases = plan(ctx)
     done = 0
     for case, paths, moments in cases:
